@@ -80,12 +80,19 @@ structure Desc where
   id : Nat               -- address
   closure : Bool := false
   field0 : Nat := 0      -- Fields[0].Typ (address), for struct types
+  named : Bool := false  -- TFlagNamed (a defined func type `type F func()`)
   deriving DecidableEq, Repr
 
-/-- `MatchesClosure(T, V)`; `v = none` is a nil `V` -/
-def matchesClosure (t : Desc) (v : Option Desc) : Bool :=
+/-- `MatchesClosure(T, V)`; `v = none` is a nil `V`.  `namedFix = false` is the pinned tree: the NAME of
+    a defined func type is ignored (`type F func() int` matches `func() int`, a listed finding);
+    `namedFix = true` is `fixes/C07-3.diff`: a named closure type matches only itself. -/
+def matchesClosure (namedFix : Bool) (t : Desc) (v : Option Desc) : Bool :=
   match v with
   | none => false       -- T == V is false for a nil V and non-nil T; `V == nil` → false
-  | some v => if t.id = v.id then true else if !v.closure then false else t.field0 = v.field0
+  | some v =>
+    if t.id = v.id then true
+    else if !v.closure then false
+    else if namedFix && (t.named || v.named) then false
+    else t.field0 = v.field0
 
 end LlgoVerif.Face
